@@ -84,7 +84,11 @@ private theorem ti_part (names : List Name) (ti : Option Labels) :
 collector emits bears a name the collector claimed (`ClaimsCover` — a real precondition, see above), the families
 yielded by `restricted_registry(names).collect()` are — as a multiset — exactly the families of `collect()` restricted
 to the samples whose name is listed, with name, type, help, unit and the kept samples unchanged and families left
-empty omitted. -/
+empty omitted.
+The hypothesis `ClaimsCover` is exactly what the known finding `C07:undescribed-collector-not-restrictable` excludes: a
+collector without `describe()` under `auto_describe = False` (or whose `describe()` under-reports) claims too few names,
+the registry cannot find it through its sample names, and the statement as written fails there
+(`claims_cover_needed`); by design — its names are unknown without calling `collect()`. -/
 theorem restricted_is_filter {s : State} (hi : Inv s) (hc : ClaimsCover s) (names : List Name) :
     (restrictedCollect names s).families.Perm ((collect s).families.filterMap (restrictTo names)) := by
   have hrm : restrictTo names = restrictedMetric names := by
@@ -176,17 +180,10 @@ state reachable by any history — seen as a registry collector (`describe()` = 
 = the family with the samples `_samples` / `_multi_samples` / `_child_samples` build, plus one `<name>_created` per
 child when created series are enabled, `created`), every sample name it emits (`_total`, `_created`, `_count`, `_sum`,
 `_bucket`, `_info`, the bare name for gauges and enums) is among the names `_get_names` records for it under the
-extracted suffix table, whatever the `auto_describe` flag, help text and unit. -/
+extracted suffix table, whatever the `auto_describe` flag, help text and unit.  (`m` is arbitrary, so no reachability
+hypothesis is needed: the statement holds a fortiori for the objects of `Model.Metrics.run (Reg.fresh ds) ops`.) -/
 theorem builtin_claims_cover (ad : Bool) (id : Nat) (help unit : List Char) (created : Bool)
     (m : PromVerif.Model.Metrics.Metric V) :
-    SamplesCovered ad (metricCollector id help unit created m) :=
-  metricCollector_covered ad id help unit created m
-
-/-- …in particular for every metric object reachable by a C01 history -/
-theorem builtin_claims_cover_reachable (ad : Bool) (id : Nat) (help unit : List Char) (created : Bool)
-    (ds : List (PromVerif.Model.Metrics.Decl V)) (mops : List (PromVerif.Model.Metrics.Op V))
-    (m : PromVerif.Model.Metrics.Metric V)
-    (_hm : m ∈ (PromVerif.Model.Metrics.run (PromVerif.Model.Metrics.Reg.fresh ds) mops).1) :
     SamplesCovered ad (metricCollector id help unit created m) :=
   metricCollector_covered ad id help unit created m
 
@@ -273,6 +270,41 @@ theorem http_name_param (render : Fmt → List Family → B) (s : State) (gzip :
   refine ⟨fun ks hk => ⟨h.1 ks hk, fun hi hc => restricted_is_filter hi hc _⟩, fun hn => h.2.1 hn⟩
 
 end Http
+
+/-! ### the hypothesis `ClaimsCover` is needed -/
+
+/-- a collector without `describe()` whose `collect()` returns the gauge family `x` with one sample `x` -/
+def undescribedCollector : Collector :=
+  ⟨0, none, [⟨['x'], .gauge, ['h'], [], [⟨['x'], .idx 0⟩]⟩]⟩
+
+/-- **Counter-example (known finding `C07:undescribed-collector-not-restrictable`).**  Registered in a registry with
+`auto_describe` off, the collector claims no name; the registry is reachable and satisfies the invariant, `ClaimsCover`
+fails, the full collection has the sample `x`, and `restricted_registry(['x']).collect()` yields nothing and calls
+nobody — not the filter of the full collection.  So `restricted_is_filter` does not hold without `ClaimsCover`. -/
+theorem claims_cover_needed :
+    (register (init false none) undescribedCollector).2 = none ∧
+    Inv (register (init false none) undescribedCollector).1 ∧
+    ¬ ClaimsCover (register (init false none) undescribedCollector).1 ∧
+    (collect (register (init false none) undescribedCollector).1).families.filterMap (restrictTo [['x']])
+      = undescribedCollector.families ∧
+    (restrictedCollect [['x']] (register (init false none) undescribedCollector).1).families = [] ∧
+    (restrictedCollect [['x']] (register (init false none) undescribedCollector).1).calls = [] ∧
+    ¬ (restrictedCollect [['x']] (register (init false none) undescribedCollector).1).families.Perm
+        ((collect (register (init false none) undescribedCollector).1).families.filterMap (restrictTo [['x']])) := by
+  have hc2n : (register (init false none) undescribedCollector).1.collectorToNames = [(undescribedCollector, [])] := by
+    decide
+  have hr : (restrictedCollect [['x']] (register (init false none) undescribedCollector).1).families = [] := by decide
+  have hf : (collect (register (init false none) undescribedCollector).1).families.filterMap (restrictTo [['x']])
+      = undescribedCollector.families := by decide
+  refine ⟨by decide, PromVerif.Props.C06.inv_register (PromVerif.Props.C06.inv_init _ _) _, ?_, hf, hr, by decide, ?_⟩
+  · intro h
+    have := h undescribedCollector [] (by rw [hc2n]; simp) ⟨['x'], .gauge, ['h'], [], [⟨['x'], .idx 0⟩]⟩
+      (by simp [undescribedCollector]) ⟨['x'], .idx 0⟩ (by simp)
+    simp at this
+  · rw [hr, hf]
+    intro h
+    have := h.length_eq
+    simp [undescribedCollector] at this
 
 /-! ### non-vacuity and regressions -/
 
